@@ -57,6 +57,11 @@ typedef struct BindFormat {
 
 /* pointer-free public functions that are not part of the baseline API (bindings/baseline_api.txt): callable without preconditions */
 typedef struct BindExtra { const char *name; uint64_t (*fn)(uint64_t, uint64_t, uint64_t, uint64_t); unsigned nparams; } BindExtra;
+/* new API whose only pointer parameter is the PDU of a known format (first parameter), the others being integers: called on a
+ * well-formed PDU of that format */
+typedef struct BindExtraP { const char *name; uint64_t (*fn)(void *, uint64_t, uint64_t, uint64_t); unsigned nparams; const char *fmt; int is_const; } BindExtraP;
+extern const BindExtraP bind_extras_p[];
+extern const unsigned bind_nextras_p;
 extern const BindExtra bind_extras[];
 extern const unsigned bind_nextras;
 extern const char *const bind_new_uncallable[];  /* new API that takes pointers: reported, not called */
